@@ -909,8 +909,7 @@ mod cpr {
         let a = lossy.find_license_for_file(p).and_then(|l| l.name().map(|s| s.to_string()));
         let b = lossless.find_license_for_file(p).and_then(|l| l.name().map(|s| s.to_string()));
         if a != b {
-            if a == Some("GPL".to_string()) && b.is_none() { crate::anytext::note_known_pub("C17:name-only-standalone-licence", "a stand-alone License paragraph with a name and no text (\"License: GPL\"): the lossy reader resolves the reference, the lossless one does not (LicenseParagraph::name() is None for a one-line value)"); }
-            else { return Err(Fail { prop: "C17".into(), input: text.into(), what: "the lossy and the lossless reader give different licences for a file".into(), expected: format!("{:?}", a), got: format!("{:?}", b) }); }
+            { return Err(Fail { prop: "C17".into(), input: text.into(), what: "the lossy and the lossless reader give different licences for a file".into(), expected: format!("{:?}", a), got: format!("{:?}", b) }); }
         }
         Ok(1)
     }
